@@ -28,6 +28,13 @@ class ViewModule:
         L.append("  ONE = 1")
         L.append("  TWO = 2")
         L.append("  BIG = 200")
+        # an imported module with a structure and an enum used by Top
+        self.inc_text = None
+        if self.f("import", 0.3):
+            self.inc_text = ('[$default byte_order: "%s"]\n[(cpp) namespace: "inc_ns"]\nenum Shade:\n  DARK = 0\n  LIGHT = 1\n'
+                             'struct Shared:\n  0 [+1]  UInt  count\n  1 [+1]  Shade  shade\n  if count > 1:\n    2 [+2]  UInt  more\n'
+                             % r.choice(["LittleEndian", "BigEndian"]))
+            L.insert(0, 'import "inc.emb" as inc')
         self.has_inner = self.f("nested", 0.5)
         self.has_param = self.f("param", 0.35)
         if self.has_inner:
@@ -47,7 +54,13 @@ class ViewModule:
             L.append("  1 [+n]  UInt:8[]  body")
             if r.random() < 0.5:
                 L.append("  let total = n + head")
-        L.append("struct Top:")
+        # the top-level structure may itself take a parameter (passed to Make...View)
+        self.top_param = None
+        if self.f("top_param", 0.3):
+            self.top_param = r.choice([0, 1, 2, 3, 5, 200])
+            L.append("struct Top(tp: UInt:8):")
+        else:
+            L.append("struct Top:")
         self.top_fields()
         self.structs.append("Top")
 
@@ -58,6 +71,8 @@ class ViewModule:
         off = 0
         L.append("  0 [+1]  UInt  tag")
         ints.append("tag")
+        if self.top_param is not None:
+            ints.append("tp")
         off = 1
         n = r.randint(1, 5)
         names = []
@@ -132,6 +147,12 @@ class ViewModule:
         if self.has_param and r.random() < 0.8:
             arg = r.choice(ints + ["3"])
             L.append("  %d [+12]  Par(%s)  par" % (off + 50, arg))
+        if self.inc_text is not None:
+            L.append("  %d [+4]  inc.Shared  shared" % (off + 90))
+            L.append("  let shared_count = shared.count")
+            if r.random() < 0.5:
+                L.append("  if shared.shade == inc.Shade.LIGHT:")
+                L.append("    %d [+1]  UInt  when_light" % (off + 94))
         # virtual fields
         if self.f("virtual", 0.7):
             a = r.choice(ints)
